@@ -342,6 +342,16 @@ pub fn generate_c18(rng: &mut Rng) -> Scenario {
         argv.push("--diagnostic-format".into());
         argv.push("json".into());
     }
+    // allowing lints (even all of them) silences warnings, never the error for a generator that failed
+    if rng.chance(1, 5) {
+        for _ in 0..1 + rng.usize_below(2) {
+            argv.push(if rng.chance(1, 2) { "-A".into() } else { "--allow".into() });
+            argv.push((*rng.pick(LINTS)).to_owned());
+        }
+    }
+    if rng.chance(1, 8) {
+        argv.push("--disable-color".into());
+    }
     if fault_free {
         sim.sched = Sched::CompilerFirst;
         sim.buggify = Buggify::default();
@@ -437,6 +447,9 @@ pub fn verdict(h: &GenHistory) -> Verdict {
     }
     if !h.stderr.is_empty() {
         return Verdict::Failed(format!("it wrote {} bytes to stderr", h.stderr.len()));
+    }
+    if h.stderr_unseen {
+        return Verdict::Failed("it wrote to stderr (which the compiler had not piped, so it cannot have noticed)".into());
     }
     match h.status {
         Some(0) => {}
